@@ -46,11 +46,21 @@ Proof. destruct ci; reflexivity. Qed.
 (* ------------------------------------------------------------------ *)
 (** * Well-formed nodes *)
 
+(* the latest target event of a uid in a trace (newest first) *)
+Fixpoint last_tgt (t : list ev) (u : N) : option (N * bool) :=
+  match t with
+  | [] => None
+  | ETarget u' a p :: r => if N.eqb u u' then Some (a, p) else last_tgt r u
+  | _ :: r => last_tgt r u
+  end.
+
+Definition is_tgt (e : ev) : bool := match e with ETarget _ _ _ => true | _ => false end.
+
 Definition iwf (s : st) (ci : citem) : Prop :=
   (ci_uid ci < nuid s)%N /\
   match ci_kind ci with
-  | KMeth a _ _ => In (ETarget (ci_uid ci) a false) (tr s)
-  | KPrep a _ _ => In (ETarget (ci_uid ci) a true) (tr s)
+  | KMeth a _ _ => last_tgt (tr s) (ci_uid ci) = Some (a, false)
+  | KPrep a _ _ => last_tgt (tr s) (ci_uid ci) = Some (a, true)
   | _ => True
   end.
 
@@ -61,16 +71,44 @@ Definition tgt_is (ci : citem) (a : N) : Prop :=
 Definition nwf (s : st) (n : node) : Prop :=
   match n with NItem ci => iwf s ci | NHeld a ci => tgt_is ci a end.
 
-Definition sle (s s' : st) : Prop := (nuid s <= nuid s')%N /\ ext s s'.
+(* later state: uids only grow, the trace only grows, and the target events added are about uids that were not
+   handed out before *)
+Definition fresh_tgts (n : N) (evs : list ev) : Prop := forall u a p, In (ETarget u a p) evs -> (n <= u)%N.
 
-Lemma sle_refl s : sle s s. Proof. split; [lia | apply ext_refl]. Qed.
+Definition sle (s s' : st) : Prop :=
+  (nuid s <= nuid s')%N /\ exists evs, tr s' = evs ++ tr s /\ fresh_tgts (nuid s) evs.
+
+Lemma fresh_nil n : fresh_tgts n []. Proof. intros u a p []. Qed.
+
+Lemma fresh_notgt n evs : forallb (fun e => negb (is_tgt e)) evs = true -> fresh_tgts n evs.
+Proof.
+  intros F u a p H. rewrite forallb_forall in F. specialize (F _ H). discriminate.
+Qed.
+
+Lemma sle_refl s : sle s s. Proof. split; [lia | exists []; split; [reflexivity | apply fresh_nil]]. Qed.
 Lemma sle_trans a b c : sle a b -> sle b c -> sle a c.
-Proof. intros [A1 A2] [B1 B2]. split; [lia | eapply ext_trans; eauto]. Qed.
+Proof.
+  intros [A1 (x & X & FX)] [B1 (y & Y & FY)]. split; [lia|]. exists (y ++ x). split.
+  - rewrite Y, X, app_assoc. reflexivity.
+  - intros u p q H. apply in_app_or in H as [H|H]; [specialize (FY _ _ _ H); lia | eapply FX; eauto].
+Qed.
+
+Lemma sle_ext s s' : sle s s' -> ext s s'.
+Proof. intros [_ (evs & E & _)]. exists evs. exact E. Qed.
+
+Lemma last_tgt_app evs t u : (forall u' a p, In (ETarget u' a p) evs -> u' <> u) -> last_tgt (evs ++ t) u = last_tgt t u.
+Proof.
+  induction evs as [|e evs IH]; simpl; auto. intros H.
+  assert (R : last_tgt (evs ++ t) u = last_tgt t u) by (apply IH; intros; eapply H; eauto).
+  destruct e; auto. destruct (N.eqb u uid) eqn:E; auto. apply N.eqb_eq in E. exfalso. eapply H; [left; reflexivity | congruence].
+Qed.
 
 Lemma nwf_mono s s' n : sle s s' -> nwf s n -> nwf s' n.
 Proof.
-  intros [A B] H. destruct n; simpl in *; auto. destruct H as [H1 H2]. split; [lia|].
-  destruct (ci_kind ci); auto; eapply ext_in; eauto.
+  intros [A (evs & B & F)] H. destruct n; simpl in *; auto. destruct H as [H1 H2]. split; [lia|].
+  assert (R : last_tgt (tr s') (ci_uid ci) = last_tgt (tr s) (ci_uid ci)).
+  { rewrite B. apply last_tgt_app. intros u' a p IN EQ. specialize (F _ _ _ IN). lia. }
+  rewrite R. exact H2.
 Qed.
 
 Definition nsf (s : st) (l : list node) : Prop := Forall (nwf s) l.
@@ -189,19 +227,24 @@ Qed.
 (* ------------------------------------------------------------------ *)
 (** * Setters *)
 
-Lemma sle_emit s e : sle s (emit s e).
-Proof. split; [simpl; lia | apply ext_emit]. Qed.
+Lemma sle_emit s e : is_tgt e = false -> sle s (emit s e).
+Proof.
+  intros T. split; [simpl; lia|]. exists [e]. split; [reflexivity|]. intros u a p [E|[]]. subst e. discriminate T.
+Qed.
 
 Lemma sle_same s s' : nuid s' = nuid s -> tr s' = tr s -> sle s s'.
-Proof. intros A B. split; [lia | apply ext_same; auto]. Qed.
+Proof. intros A B. split; [lia|]. exists []. split; [auto | apply fresh_nil]. Qed.
 
 Ltac transport_tac := eapply QWF_transport; [eassumption | | reflexivity ..].
 
-Lemma Q_emit s e : QWF s -> QWF (emit s e).
-Proof. intros H. transport_tac. apply sle_emit. Qed.
+Lemma Q_emit s e : is_tgt e = false -> QWF s -> QWF (emit s e).
+Proof. intros T H. transport_tac. apply sle_emit; auto. Qed.
+
+Ltac qe := apply Q_emit; [reflexivity|].
+Ltac se := apply sle_emit; reflexivity.
 
 Lemma Q_set_nuid s v : QWF s -> (nuid s <= v)%N -> QWF (set_nuid s v).
-Proof. intros H L. transport_tac. split; [exact L | apply ext_same; reflexivity]. Qed.
+Proof. intros H L. transport_tac. split; [exact L|]. exists []. split; [reflexivity | apply fresh_nil]. Qed.
 
 Lemma Q_set_fwds s v : QWF s -> QWF (set_fwds s v). Proof. intros H. transport_tac. apply sle_same; reflexivity. Qed.
 Lemma Q_set_shut s v : QWF s -> QWF (set_shut s v). Proof. intros H. transport_tac. apply sle_same; reflexivity. Qed.
@@ -260,9 +303,9 @@ Lemma sle_push_main s ci : sle s (push_main s ci). Proof. apply sle_same; reflex
 Lemma Q_submit s q ci : QWF s -> cwf s ci -> QWF (submit s q ci).
 Proof.
   intros H C. unfold submit.
-  assert (H1 : QWF (emit s (ESub q (ci_uid ci) (ci_call ci)))) by (apply Q_emit; auto).
+  assert (H1 : QWF (emit s (ESub q (ci_uid ci) (ci_call ci)))) by (qe; auto).
   assert (C1 : cwf (emit s (ESub q (ci_uid ci) (ci_call ci))) (ci_setq ci q)).
-  { apply cwf_setq. eapply nsf_mono; [apply sle_emit | exact C]. }
+  { apply cwf_setq. eapply nsf_mono; [se | exact C]. }
   destruct q.
   - apply Q_push_main; auto.
   - apply Q_set_lazyq; auto. apply qwf_app. split; [apply H1 | constructor; auto].
@@ -271,51 +314,61 @@ Proof.
 Qed.
 
 Lemma sle_submit s q ci : sle s (submit s q ci).
-Proof. unfold submit. destruct q; (eapply sle_trans; [apply sle_emit|]); try apply sle_refl; apply sle_same; reflexivity. Qed.
+Proof.
+  unfold submit. destruct q.
+  - eapply sle_trans; [apply (sle_emit s (ESub QMain (ci_uid ci) (ci_call ci))); reflexivity | apply sle_push_main].
+  - eapply sle_trans; [apply (sle_emit s (ESub QLazy (ci_uid ci) (ci_call ci))); reflexivity | apply sle_same; reflexivity].
+  - eapply sle_trans; [apply (sle_emit s (ESub QIdle (ci_uid ci) (ci_call ci))); reflexivity | apply sle_same; reflexivity].
+  - apply sle_emit; reflexivity.
+Qed.
 
 Lemma Q_timer_add s k v t ci : QWF s -> cwf s ci -> QWF (timer_add s k v t ci).
 Proof.
   intros H C. unfold timer_add.
   set (s1 := emit (emit s (ESub QTimer (ci_uid ci) (ci_call ci))) (ETimerVar k v (ci_uid ci))).
-  assert (L : sle s s1) by (eapply sle_trans; apply sle_emit).
-  assert (H1 : QWF s1) by (unfold s1; apply Q_emit, Q_emit; auto).
+  assert (L : sle s s1) by (eapply sle_trans; se).
+  assert (H1 : QWF s1) by (unfold s1; qe; qe; auto).
   apply Q_set_tvars, Q_set_tnext, Q_set_timers; auto. rewrite map_app. apply qwf_app. split; [apply H1|].
   constructor; auto. simpl. apply cwf_setq. eapply nsf_mono; eauto.
 Qed.
 
 Lemma sle_timer_add s k v t ci : sle s (timer_add s k v t ci).
-Proof. unfold timer_add. eapply sle_trans; [apply sle_emit|]. eapply sle_trans; [apply sle_emit|]. apply sle_same; reflexivity. Qed.
+Proof.
+  unfold timer_add.
+  eapply sle_trans; [apply (sle_emit s (ESub QTimer (ci_uid ci) (ci_call ci))); reflexivity|].
+  eapply sle_trans; [apply (sle_emit _ (ETimerVar k v (ci_uid ci))); reflexivity|]. apply sle_same; reflexivity.
+Qed.
 
 Lemma Q_ref_clone s a : QWF s -> QWF (ref_clone s a).
 Proof.
-  intros H. unfold ref_clone. destruct (aget (actors s) a) as [x|] eqn:E; [|apply Q_emit; auto].
+  intros H. unfold ref_clone. destruct (aget (actors s) a) as [x|] eqn:E; [|qe; auto].
   assert (AW : awf s (with_rc x (oz (minrc_clone (a_rc x))))) by (apply (w_actors _ H _ _ E)).
   destruct (a_freed x).
-  - apply Q_upd_actor. apply Q_emit; auto. eapply awf_mono; [apply sle_emit | exact AW].
+  - apply Q_upd_actor. qe; auto. eapply awf_mono; [se | exact AW].
   - apply Q_upd_actor; auto.
 Qed.
 
 Lemma sle_ref_clone s a : sle s (ref_clone s a).
 Proof.
   unfold ref_clone. destruct (aget (actors s) a) as [x|]; [destruct (a_freed x)|].
-  - eapply sle_trans; [apply sle_emit | apply sle_upd_actor].
+  - eapply sle_trans; [ | apply sle_upd_actor]; [se].
   - apply sle_upd_actor.
-  - apply sle_emit.
+  - se.
 Qed.
 
 Lemma Q_log_rec s a b c d : QWF s -> QWF (log_rec s a b c d).
-Proof. intros H. unfold log_rec. destruct (_ && _); auto. apply Q_emit; auto. Qed.
+Proof. intros H. unfold log_rec. destruct (_ && _); auto. qe; auto. Qed.
 Lemma sle_log_rec s a b c d : sle s (log_rec s a b c d).
-Proof. unfold log_rec. destruct (_ && _); [apply sle_emit | apply sle_refl]. Qed.
+Proof. unfold log_rec. destruct (_ && _); [se | apply sle_refl]. Qed.
 
 Lemma sle_new_actor s a nt parent vis : sle s (new_actor s a nt parent vis).
 Proof.
   unfold new_actor.
   assert (L : sle s (emit (upd_actor (log_rec (set_logseq s (oz (log_id_next (logseq s)))) (oz (log_id_next (logseq s))) LOGLEVEL_OPEN parent 0) a
        (mkActor (SPrep []) (oz (count_inc (oz count_new))) MINRC_INIT (Some nt) (oz (log_id_next (logseq s))) false)) (EActor a))).
-  { eapply sle_trans; [|apply sle_emit]. eapply sle_trans; [|apply sle_upd_actor].
+  { eapply sle_trans; [|se]. eapply sle_trans; [|apply sle_upd_actor].
     eapply sle_trans; [|apply sle_log_rec]. apply sle_same; reflexivity. }
-  destruct vis; auto. eapply sle_trans; [exact L | apply sle_emit].
+  destruct vis; auto. eapply sle_trans; [exact L | se].
 Qed.
 
 Lemma Q_new_actor s a nt parent vis : QWF s -> rwf s nt -> QWF (new_actor s a nt parent vis).
@@ -325,8 +378,8 @@ Proof.
   assert (L : sle s s2) by (unfold s2; eapply sle_trans; [|apply sle_log_rec]; apply sle_same; reflexivity).
   assert (H2 : QWF s2) by (unfold s2; apply Q_log_rec, Q_set_logseq; auto).
   assert (H3 : QWF (emit (upd_actor s2 a (mkActor (SPrep []) (oz (count_inc (oz count_new))) MINRC_INIT (Some nt) (oz (log_id_next (logseq s))) false)) (EActor a))).
-  { apply Q_emit, Q_upd_actor; auto. split; simpl; [constructor|]. eapply nsf_mono; eauto. }
-  destruct vis; auto. apply Q_emit; auto.
+  { qe; apply Q_upd_actor; auto. split; simpl; [constructor|]. eapply nsf_mono; eauto. }
+  destruct vis; auto. qe; auto.
 Qed.
 
 (* ------------------------------------------------------------------ *)
@@ -407,7 +460,7 @@ Proof.
 Qed.
 
 Lemma bad_wf s c l s' : QWF s -> bad s c = (l, s') -> QWF s' /\ sle s s' /\ kwf s' l.
-Proof. unfold bad. intros H E; inversion E; subst. split; [apply Q_emit; auto|]. split; [apply sle_emit | constructor]. Qed.
+Proof. unfold bad. intros H E; inversion E; subst. split; [qe; auto|]. split; [se | constructor]. Qed.
 
 (* new closure instances *)
 Lemma inst_wf c mk s ci s' : QWF s -> inst c mk s = (ci, s') ->
@@ -417,14 +470,14 @@ Proof.
   intros H. unfold inst. destruct (take_caps (clo_caps c) s) as [caps s1] eqn:T. intros E; inversion E; subst. clear E.
   destruct (take_caps_wf _ _ _ _ H T) as (H1 & N1 & T1 & L1).
   assert (L : sle s (emit (set_nuid s1 (nuid s + 1)%N) (EClo (nuid s) (clo_id c)))).
-  { split; [simpl; lia|]. exists [EClo (nuid s) (clo_id c)]. simpl. rewrite T1. reflexivity. }
-  split; [apply Q_emit, Q_set_nuid; auto; lia|]. split; [exact L|]. split; [reflexivity|]. split; [simpl; lia|].
+  { split; [simpl; lia|]. exists [EClo (nuid s) (clo_id c)]. split; [simpl; rewrite T1; reflexivity | apply fresh_notgt; reflexivity]. }
+  split; [qe; apply Q_set_nuid; auto; lia|]. split; [exact L|]. split; [reflexivity|]. split; [simpl; lia|].
   split; [simpl; eapply nsf_mono; [exact L | exact L1]|]. split; reflexivity.
 Qed.
 
 Lemma cwf_intro s u c k caps q :
   (u < nuid s)%N -> lwf s caps ->
-  match k with KMeth a _ _ => In (ETarget u a false) (tr s) | KPrep a _ _ => In (ETarget u a true) (tr s) | _ => True end ->
+  match k with KMeth a _ _ => last_tgt (tr s) u = Some (a, false) | KPrep a _ _ => last_tgt (tr s) u = Some (a, true) | _ => True end ->
   cwf s (CI u c k caps q).
 Proof. intros A B C. apply cwf_iff. split; auto. split; auto. Qed.
 
@@ -434,48 +487,43 @@ Proof.
   split; auto. split; auto. destruct ci as [u i k caps q]. simpl in *. subst. apply cwf_intro; auto.
 Qed.
 
-Lemma target_ev_props s ci :
-  nuid (target_ev s ci) = nuid s /\ ext s (target_ev s ci) /\
-  match ci_kind ci with
-  | KMeth a _ _ => In (ETarget (ci_uid ci) a false) (tr (target_ev s ci))
-  | KPrep a _ _ => In (ETarget (ci_uid ci) a true) (tr (target_ev s ci))
-  | _ => True
-  end.
+(* a fresh closure instance with its creation event and (for calls) its target event *)
+Lemma created_wf s1 cid k caps :
+  QWF s1 -> lwf s1 caps ->
+  let u := nuid s1 in
+  let s' := target_ev (emit (set_nuid s1 (u + 1)%N) (EClo u cid)) (CI u cid k caps None) in
+  QWF s' /\ sle s1 s' /\ cwf s' (CI u cid k caps None).
 Proof.
-  destruct ci as [u i k caps q]. destruct k; simpl; repeat split; auto; try apply ext_refl; try apply ext_emit; left; reflexivity.
+  intros H L u s'.
+  assert (SL : sle s1 s').
+  { unfold s', target_ev. destruct k; (split; [simpl; lia|]).
+    all: try (exists [EClo u cid]; split; [reflexivity | apply fresh_notgt; reflexivity]).
+    - exists [ETarget u a false; EClo u cid]. split; [reflexivity|]. intros u' a' p' [E|[E|[]]]; inversion E; subst. unfold u. lia.
+    - exists [ETarget u a true; EClo u cid]. split; [reflexivity|]. intros u' a' p' [E|[E|[]]]; inversion E; subst. unfold u. lia. }
+  assert (Q : QWF s').
+  { eapply QWF_transport; [exact H | exact SL | ..]; unfold s', target_ev; destruct k; reflexivity. }
+  split; auto. split; auto. apply cwf_intro.
+  - unfold s', target_ev. destruct k; simpl; lia.
+  - eapply nsf_mono; eauto.
+  - unfold s', target_ev. destruct k; simpl; auto; rewrite N.eqb_refl; reflexivity.
 Qed.
-
-Lemma Q_target_ev s ci : QWF s -> QWF (target_ev s ci).
-Proof. intros H. unfold target_ev. destruct ci as [u i k caps q]. destruct k; auto; apply Q_emit; auto. Qed.
 
 Lemma inst_call_wf c mk s ci s' : QWF s -> inst_call c mk s = (ci, s') ->
   QWF s' /\ sle s s' /\ cwf s' ci /\ ci_kind ci = mk (clo_body c) /\ ci_sq ci = None.
 Proof.
-  intros H. unfold inst_call. destruct (inst c mk s) as [ci1 s1] eqn:I. intros E; inversion E; subst. clear E.
-  destruct (inst_wf _ _ _ _ _ H I) as (H1 & L & U & N & C & K & Q).
-  destruct (target_ev_props s1 ci) as (TN & TE & TK).
-  assert (L2 : sle s1 (target_ev s1 ci)) by (split; [lia | auto]).
-  split; [apply Q_target_ev; auto|]. split; [eapply sle_trans; eauto|]. split; [|auto].
-  apply cwf_iff. split; [split|].
-  - rewrite TN. lia.
-  - exact TK.
-  - eapply nsf_mono; eauto.
+  intros H. unfold inst_call, inst. destruct (take_caps (clo_caps c) s) as [caps s1] eqn:T. intros E; inversion E; subst. clear E.
+  destruct (take_caps_wf _ _ _ _ H T) as (H1 & N1 & T1 & L1).
+  assert (LC : lwf s1 caps) by (eapply nsf_same; [| |exact L1]; auto).
+  destruct (created_wf s1 (clo_id c) (mk (clo_body c)) caps H1 LC) as (A & B & C). rewrite N1 in A, B, C.
+  split; [exact A|]. split; [eapply sle_trans; [apply sle_same; eauto | exact B]|]. split; [exact C|]. split; reflexivity.
 Qed.
 
 Lemma inst_nocaps_wf c mk s ci s' : QWF s -> inst_nocaps c mk s = (ci, s') ->
   QWF (target_ev s' ci) /\ sle s (target_ev s' ci) /\ cwf (target_ev s' ci) ci /\ ci_kind ci = mk (clo_body c).
 Proof.
   intros H. unfold inst_nocaps. intros E; inversion E; subst. clear E.
-  set (ci := CI (nuid s) (clo_id c) (mk (clo_body c)) [] None).
-  set (s1 := emit (set_nuid s (nuid s + 1)%N) (EClo (nuid s) (clo_id c))).
-  assert (H1 : QWF s1) by (unfold s1; apply Q_emit, Q_set_nuid; auto; lia).
-  assert (L1 : sle s s1) by (split; [simpl; lia | exists [EClo (nuid s) (clo_id c)]; reflexivity]).
-  destruct (target_ev_props s1 ci) as (TN & TE & TK).
-  split; [apply Q_target_ev; auto|]. split; [eapply sle_trans; [exact L1 | split; [lia | auto]]|]. split; [|reflexivity].
-  apply cwf_iff. split; [split|].
-  - rewrite TN. simpl. lia.
-  - exact TK.
-  - apply lwf_nil.
+  destruct (created_wf s (clo_id c) (mk (clo_body c)) [] H (lwf_nil s)) as (A & B & C).
+  split; [exact A|]. split; [exact B|]. split; [exact C | reflexivity].
 Qed.
 
 Lemma inst_env_wf c s ci s' : QWF s -> inst_env c KPlain s = (ci, s') -> QWF s' /\ sle s s' /\ cwf s' ci.
@@ -483,8 +531,8 @@ Proof.
   intros H. unfold inst_env. destruct (take_env_caps (clo_caps c) s) as [caps s1] eqn:T. intros E; inversion E; subst. clear E.
   destruct (take_env_caps_wf _ _ _ _ H T) as (H1 & N1 & T1 & L1).
   assert (L : sle s (emit (set_nuid s1 (nuid s1 + 1)%N) (EClo (nuid s1) (clo_id c)))).
-  { split; [simpl; lia|]. exists [EClo (nuid s1) (clo_id c)]. simpl. rewrite T1. reflexivity. }
-  split; [apply Q_emit, Q_set_nuid; auto; lia|]. split; auto.
+  { split; [simpl; lia|]. exists [EClo (nuid s1) (clo_id c)]. split; [simpl; rewrite T1; reflexivity | apply fresh_notgt; reflexivity]. }
+  split; [qe; apply Q_set_nuid; auto; lia|]. split; auto.
   apply cwf_intro; [simpl; lia | eapply nsf_mono; eauto | exact I].
 Qed.
 
@@ -507,8 +555,8 @@ Proof.
         destruct (inst_call_wf _ _ _ _ _ (Q_ref_clone _ p H) I) as (H2 & L2 & C2 & K2 & Q2).
         split; auto. split; [eapply sle_trans; [apply sle_ref_clone | exact L2]|].
         unfold rwf, nsf. simpl. constructor; [|exact C2]. simpl. unfold tgt_is. rewrite K2. split; [reflexivity | exact Q2].
-      * intros E; inversion E; subst. split; [apply Q_emit; auto|]. split; [apply sle_emit | constructor].
-    + intros E; inversion E; subst. split; [apply Q_emit; auto|]. split; [apply sle_emit | constructor].
+      * intros E; inversion E; subst. split; [qe; auto|]. split; [se | constructor].
+    + intros E; inversion E; subst. split; [qe; auto|]. split; [se | constructor].
   - intros E; inversion E; subst. split; auto. split; [apply sle_refl | constructor].
 Qed.
 
@@ -559,8 +607,10 @@ Proof.
   split; [apply Q_timer_add; auto|]. split; [eapply sle_trans; [exact L1 | apply sle_timer_add] | apply kwf_nil].
 Qed.
 
-Lemma res_emit s e : QWF s -> res_ok s [] (emit s e).
-Proof. intros H. split; [apply Q_emit; auto|]. split; [apply sle_emit | apply kwf_nil]. Qed.
+Lemma res_emit s e : is_tgt e = false -> QWF s -> res_ok s [] (emit s e).
+Proof. intros T H. split; [apply Q_emit; auto|]. split; [apply sle_emit; auto | apply kwf_nil]. Qed.
+
+Ltac re := (apply res_emit; [reflexivity | auto]).
 
 Lemma var_timer_wf s k v i k' e o ci0 : QWF s -> var_timer s k v = Some (TI i k' e o ci0) -> cwf s ci0.
 Proof.
@@ -598,16 +648,16 @@ Proof.
     all: constructor; [exact C1 | constructor].
   - (* ATimerUpd *) destruct (has_core s); [|apply res_bad; auto].
     destruct k; [apply res_bad; auto| |].
-    all: destruct (var_timer s _ v) as [[i k' e o ci0]|] eqn:V; intros E; inversion E; subst; try (apply res_emit; auto).
-    all: split; [apply Q_emit, Q_set_timers; auto; eapply qwf_incl; [apply incl_ti_update_const; cbn [ti_ci]; eapply var_timer_in'; eauto | apply H]|].
-    all: split; [eapply sle_trans; [|apply sle_emit]; apply sle_same; reflexivity | apply kwf_nil].
+    all: destruct (var_timer s _ v) as [[i k' e o ci0]|] eqn:V; intros E; inversion E; subst; try (re).
+    all: split; [qe; apply Q_set_timers; auto; eapply qwf_incl; [apply incl_ti_update_const; cbn [ti_ci]; eapply var_timer_in'; eauto | apply H]|].
+    all: split; [eapply sle_trans; [|se]; apply sle_same; reflexivity | apply kwf_nil].
   - (* ATimerDel *) destruct (has_core s); [|apply res_bad; auto].
-    destruct (var_timer s k v) as [[i k' e o ci0]|] eqn:V; intros E; inversion E; subst; [|apply res_emit; auto].
+    destruct (var_timer s k v) as [[i k' e o ci0]|] eqn:V; intros E; inversion E; subst; [|re].
     split; [apply Q_set_timers; auto; eapply qwf_incl; [apply incl_ti_remove | apply H]|].
     split; [apply sle_same; reflexivity|].
     constructor; [|apply kwf_one_plain; reflexivity]. unfold mwf; simpl. apply (nsf_same s); [reflexivity | reflexivity |]. apply cwf_unq. eapply (var_timer_wf s); eauto.
   - (* ATimerActive *) destruct (has_core s); [|apply res_bad; auto]. destruct k; [apply res_bad; auto| |];
-      intros E; inversion E; subst; apply res_emit; auto.
+      intros E; inversion E; subst; re.
   - (* ANewActor *) destruct (has_core s); [|apply res_bad; auto].
     destruct (aget (actors s) a); [apply res_bad; auto|].
     destruct (mk_notifier s a n) as [nt s1] eqn:MK. destruct (mk_notifier_wf _ _ _ _ _ H MK) as (H1 & L1 & R1).
@@ -622,27 +672,27 @@ Proof.
     destruct (inst_call c _ (ref_clone s a)) as [ci s2] eqn:I. intros E; inversion E; subst.
     eapply res_call; [apply sle_ref_clone | apply Q_ref_clone; auto | eauto].
   - (* AStop *) destruct (frames s) as [|[cx loc die] rest] eqn:F; [apply res_bad; auto|]. destruct cx; try (apply res_bad; auto).
-    intros E; inversion E; subst. split; [|split; [eapply sle_trans; [|apply sle_emit]; apply sle_same; reflexivity | apply kwf_nil]].
-    apply Q_emit, Q_set_frames; auto. pose proof (w_frames _ H) as W. rewrite F in W. inversion W; subst. constructor; auto.
+    intros E; inversion E; subst. split; [|split; [eapply sle_trans; [|se]; apply sle_same; reflexivity | apply kwf_nil]].
+    qe; apply Q_set_frames; auto. pose proof (w_frames _ H) as W. rewrite F in W. inversion W; subst. constructor; auto.
   - destruct (frames s) as [|[cx loc die] rest] eqn:F; [apply res_bad; auto|]. destruct cx; try (apply res_bad; auto).
-    intros E'; inversion E'; subst. split; [|split; [eapply sle_trans; [|apply sle_emit]; apply sle_same; reflexivity | apply kwf_nil]].
-    apply Q_emit, Q_set_frames; auto. pose proof (w_frames _ H) as W. rewrite F in W. inversion W; subst. constructor; auto.
+    intros E'; inversion E'; subst. split; [|split; [eapply sle_trans; [|se]; apply sle_same; reflexivity | apply kwf_nil]].
+    qe; apply Q_set_frames; auto. pose proof (w_frames _ H) as W. rewrite F in W. inversion W; subst. constructor; auto.
   - (* AKill *) destruct (cur_ctx s); try (apply res_bad; auto). destruct (alive s); try (apply res_bad; auto).
     destruct (lookup s h) as [[]|]; try (apply res_bad; auto). intros E; inversion E; subst.
-    split; [apply Q_emit; auto|]. split; [apply sle_emit | apply kwf_one_plain; reflexivity].
+    split; [qe; auto|]. split; [se | apply kwf_one_plain; reflexivity].
   - (* AKillAsync *) destruct (lookup s h) as [[]|]; try (apply res_bad; auto).
     destruct (aget (actors s) a) as [x|] eqn:AX; [|apply res_bad; auto]. intros E; inversion E; subst.
     assert (H1 : QWF (upd_actor s a (with_strong x (oz (count_inc (a_strong x)))))) by (apply Q_upd_actor; auto; apply (w_actors _ H _ _ AX)).
     split; [|split; [|apply kwf_nil]].
-    + apply Q_push_main. apply Q_emit, Q_ref_clone; auto. apply cwf_intro; simpl; auto; [|apply lwf_nil].
+    + apply Q_push_main. qe; apply Q_ref_clone; auto. apply cwf_intro; simpl; auto; [|apply lwf_nil].
       pose proof (w_nuid _ (Q_ref_clone _ a H1)). lia.
-    + eapply sle_trans; [apply sle_upd_actor|]. eapply sle_trans; [apply sle_ref_clone|]. eapply sle_trans; [apply sle_emit | apply sle_push_main].
+    + eapply sle_trans; [apply sle_upd_actor|]. eapply sle_trans; [apply sle_ref_clone|]. eapply sle_trans; [ | apply sle_push_main]; [se].
   - (* AOwned *) destruct (lookup s h) as [[]|]; try (apply res_bad; auto).
     destruct (aget (actors s) a) as [x|] eqn:AX; [|apply res_bad; auto]. intros E.
     assert (H1 : QWF (upd_actor s a (with_strong x (oz (count_inc (a_strong x)))))) by (apply Q_upd_actor; auto; apply (w_actors _ H _ _ AX)).
     eapply res_bind; [| | |exact E].
-    + eapply sle_trans; [apply sle_upd_actor|]. eapply sle_trans; [apply sle_ref_clone | apply sle_emit].
-    + apply Q_emit, Q_ref_clone; auto.
+    + eapply sle_trans; [apply sle_upd_actor|]. eapply sle_trans; [apply sle_ref_clone | se].
+    + qe; apply Q_ref_clone; auto.
     + apply vwf_trivial; reflexivity.
   - (* AClone *) destruct (lookup s h) as [[a|a|a|r|f|t sc]|]; try (apply res_bad; auto).
     + intros E. eapply res_bind; [ | | | exact E]; [apply sle_ref_clone | apply Q_ref_clone; auto | apply vwf_trivial; reflexivity].
@@ -684,48 +734,48 @@ Proof.
     assert (H4 : QWF s4) by (apply Q_ref_clone; auto).
     assert (L4 : sle s s4) by (eapply sle_trans; [exact L3 | apply sle_ref_clone]).
     intros E. eapply res_bind; [ | | | exact E]; [| | apply vwf_trivial; reflexivity].
-    + eapply sle_trans; [|apply sle_emit].
+    + eapply sle_trans; [|se].
       destruct (aget (actors s4) p); [eapply sle_trans; [exact L4 | apply sle_upd_actor] | exact L4].
-    + apply Q_emit. destruct (aget (actors s4) p) as [px'|] eqn:AP'; auto.
+    + qe. destruct (aget (actors s4) p) as [px'|] eqn:AP'; auto.
       apply Q_upd_actor; auto. pose proof (w_actors _ H4 _ _ AP') as [A1 A2].
       pose proof (w_actors _ H _ _ AP) as [B1 B2]. rewrite SP in B1.
       split; simpl; auto. eapply nsf_mono; eauto.
   - (* ASlabLen *) destruct (cur_ctx s) as [|a pr|]; try (apply res_bad; auto). destruct pr; try (apply res_bad; auto).
     destruct (aget (actors s) a) as [x|]; [|apply res_bad; auto]. destruct (a_state x); try (apply res_bad; auto).
-    intros E; inversion E; subst. apply res_emit; auto.
+    intros E; inversion E; subst. re.
   - (* AIsZombie *) destruct (lookup s h) as [v|]; [|apply res_bad; auto]. destruct (handle_actor v) as [a|]; [|apply res_bad; auto].
-    destruct (aget (actors s) a); [|apply res_bad; auto]. intros E; inversion E; subst. apply res_emit; auto.
+    destruct (aget (actors s) a); [|apply res_bad; auto]. intros E; inversion E; subst. re.
   - (* ANewRet *) destruct k as [caps body|ht c|ht c].
     + destruct (take_caps caps s) as [cv s1] eqn:T. destruct (take_caps_wf _ _ _ _ H T) as (H1 & N1 & T1 & L1).
       intros E. eapply res_bind; [| | |exact E].
-      * eapply sle_trans; [apply sle_same; eauto | apply sle_emit].
-      * apply Q_emit; auto.
-      * unfold vwf. simpl. eapply nsf_mono; [|exact L1]. eapply sle_trans; [apply sle_same; eauto | apply sle_emit].
+      * eapply sle_trans; [apply sle_same; eauto | se].
+      * qe; auto.
+      * unfold vwf. simpl. eapply nsf_mono; [|exact L1]. eapply sle_trans; [apply sle_same; eauto | se].
     + destruct (lookup s ht) as [v|]; [|apply res_bad; auto]. destruct (handle_actor v) as [a|]; [|apply res_bad; auto].
       destruct (inst_call c _ (ref_clone s a)) as [ci s2] eqn:I.
       destruct (inst_call_wf _ _ _ _ _ (Q_ref_clone _ a H) I) as (H2 & L2 & C2 & K2 & Q2).
       intros E. eapply res_bind; [| | |exact E].
-      * eapply sle_trans; [apply sle_ref_clone|]. eapply sle_trans; [exact L2|]. eapply sle_trans; apply sle_emit.
-      * apply Q_emit, Q_emit; auto.
+      * eapply sle_trans; [apply sle_ref_clone|]. eapply sle_trans; [exact L2|]. eapply sle_trans; se.
+      * qe; qe; auto.
       * unfold vwf, nsf. simpl. constructor; [simpl; unfold tgt_is; rewrite K2; split; [reflexivity | exact Q2]|].
-        eapply nsf_mono; [|exact C2]. eapply sle_trans; apply sle_emit.
+        eapply nsf_mono; [|exact C2]. eapply sle_trans; se.
     + destruct (lookup s ht) as [v|]; [|apply res_bad; auto]. destruct (handle_actor v) as [a|]; [|apply res_bad; auto].
       destruct (inst_call c _ (ref_clone s a)) as [ci s2] eqn:I.
       destruct (inst_call_wf _ _ _ _ _ (Q_ref_clone _ a H) I) as (H2 & L2 & C2 & K2 & Q2).
       intros E. eapply res_bind; [| | |exact E].
-      * eapply sle_trans; [apply sle_ref_clone|]. eapply sle_trans; [exact L2|]. eapply sle_trans; apply sle_emit.
-      * apply Q_emit, Q_emit; auto.
+      * eapply sle_trans; [apply sle_ref_clone|]. eapply sle_trans; [exact L2|]. eapply sle_trans; se.
+      * qe; qe; auto.
       * unfold vwf, nsf. simpl. constructor; [simpl; unfold tgt_is; rewrite K2; split; [reflexivity | exact Q2]|].
-        eapply nsf_mono; [|exact C2]. eapply sle_trans; apply sle_emit.
+        eapply nsf_mono; [|exact C2]. eapply sle_trans; se.
   - (* ARetSend *) destruct (lookup s h) as [[a|a|a|[rid rk]|f|t sc]|] eqn:LK; try (apply res_bad; auto).
     destruct (take s h) as [o s1] eqn:T. destruct (take_wf _ _ _ _ H T) as (H1 & N1 & T1 & _).
-    intros E; inversion E; subst. split; [apply Q_emit; auto|]. split; [eapply sle_trans; [apply sle_same; eauto | apply sle_emit]|].
+    intros E; inversion E; subst. split; [qe; auto|]. split; [eapply sle_trans; [apply sle_same; eauto | se]|].
     constructor; [|constructor]. unfold mwf; simpl.
-    eapply nsf_mono; [|exact (lookup_wf _ _ _ H LK)]. eapply sle_trans; [apply sle_same; eauto | apply sle_emit].
+    eapply nsf_mono; [|exact (lookup_wf _ _ _ H LK)]. eapply sle_trans; [apply sle_same; eauto | se].
   - (* ANewFwd *) destruct (aget (fwds s) f); [apply res_bad; auto|]. destruct k as [body|ht c].
     + intros E. eapply res_bind; [ | | | exact E]; [| | apply vwf_trivial; reflexivity].
-      * eapply sle_trans; [|apply sle_emit]. apply sle_same; reflexivity.
-      * apply Q_emit, Q_set_fwds; auto.
+      * eapply sle_trans; [|se]. apply sle_same; reflexivity.
+      * qe; apply Q_set_fwds; auto.
     + destruct (lookup s ht) as [v|]; [|apply res_bad; auto]. destruct (handle_actor v) as [a|]; [|apply res_bad; auto].
       intros E. eapply res_bind; [ | | | exact E]; [| | apply vwf_trivial; reflexivity].
       * eapply sle_trans; [apply sle_ref_clone | apply sle_same; reflexivity].
@@ -733,24 +783,24 @@ Proof.
   - (* AFwdSend *) destruct (lookup s h) as [[a|a|a|r|f|t sc]|]; try (apply res_bad; auto).
     destruct (aget (fwds s) f) as [[rc [body|ht c] tg]|]; try (apply res_bad; auto).
     + intros E; inversion E; subst. split; [|split].
-      * unfold push_frame. apply Q_set_frames. apply Q_emit, Q_set_fwds; auto.
+      * unfold push_frame. apply Q_set_frames. qe; apply Q_set_fwds; auto.
         constructor; [simpl; apply lwf_nil|]. pose proof (w_frames _ H) as W.
-        eapply Forall_impl; [|exact W]. intros fr. apply nsf_mono. eapply sle_trans; [|apply sle_emit]. apply sle_same; reflexivity.
-      * eapply sle_trans; [|apply sle_same; reflexivity]. eapply sle_trans; [|apply sle_emit]. apply sle_same; reflexivity.
+        eapply Forall_impl; [|exact W]. intros fr. apply nsf_mono. eapply sle_trans; [|se]. apply sle_same; reflexivity.
+      * eapply sle_trans; [|apply sle_same; reflexivity]. eapply sle_trans; [|se]. apply sle_same; reflexivity.
       * constructor; [unfold mwf; simpl; constructor|]. constructor; [unfold mwf; simpl; constructor|]. apply kwf_one_plain. reflexivity.
     + destruct tg as [a|]; [|apply res_bad; auto].
       destruct (inst_nocaps c _ (ref_clone s a)) as [ci s2] eqn:I.
       destruct (inst_nocaps_wf _ _ _ _ _ (Q_ref_clone _ a H) I) as (H2 & L2 & C2 & _).
       intros E; inversion E; subst. split; [apply Q_submit; auto|]. split; [|apply kwf_nil].
       eapply sle_trans; [apply sle_ref_clone|]. eapply sle_trans; [exact L2 | apply sle_submit].
-  - (* ANewTok *) intros E. eapply res_bind; [ | | | exact E]; [apply sle_emit | apply Q_emit; auto | apply vwf_trivial; reflexivity].
+  - (* ANewTok *) intros E. eapply res_bind; [ | | | exact E]; [se | qe; auto | apply vwf_trivial; reflexivity].
   - (* ALog *) destruct (has_core s); [|apply res_bad; auto]. intros E; inversion E; subst.
-    split; [apply Q_log_rec, Q_emit; auto|]. split; [eapply sle_trans; [apply sle_emit | apply sle_log_rec] | apply kwf_nil].
-  - destruct (has_core s); [|apply res_bad; auto]. intros E; inversion E; subst. apply res_emit; auto.
-  - destruct (has_core s); [|apply res_bad; auto]. intros E; inversion E; subst. apply res_emit; auto.
-  - destruct (has_core s); [|apply res_bad; auto]. intros E; inversion E; subst. apply res_emit; auto.
+    split; [apply Q_log_rec; qe; auto|]. split; [eapply sle_trans; [ | apply sle_log_rec]; [se] | apply kwf_nil].
+  - destruct (has_core s); [|apply res_bad; auto]. intros E; inversion E; subst. re.
+  - destruct (has_core s); [|apply res_bad; auto]. intros E; inversion E; subst. re.
+  - destruct (has_core s); [|apply res_bad; auto]. intros E; inversion E; subst. re.
   - destruct (has_core s); [|apply res_bad; auto]. intros E; inversion E; subst.
-    split; [apply Q_set_shut, Q_emit; auto|]. split; [eapply sle_trans; [apply sle_emit | apply sle_same; reflexivity] | apply kwf_nil].
+    split; [apply Q_set_shut; qe; auto|]. split; [eapply sle_trans; [ | apply sle_same; reflexivity]; [se] | apply kwf_nil].
   - (* ARep *) destruct n; intros E; inversion E; subst.
     + split; auto. split; [apply sle_refl | apply kwf_nil].
     + split; auto. split; [apply sle_refl|]. constructor; [unfold mwf; simpl; constructor|]. apply kwf_one_plain. reflexivity.
@@ -809,37 +859,37 @@ Lemma run_item_wf ci s l s' : QWF s -> cwf s ci -> run_item ci s = (l, s') -> re
 Proof.
   intros H C. unfold run_item. destruct ci as [u i kd caps q]. pose proof (cwf_caps _ _ C) as LC. simpl in LC.
   destruct kd.
-  - intros E; inversion E; subst. split; [|split; [eapply sle_trans; [apply sle_emit | apply sle_push_frame]|]].
-    + apply push_frame_wf. apply Q_emit; auto. eapply nsf_mono; [apply sle_emit | exact LC].
+  - intros E; inversion E; subst. split; [|split; [eapply sle_trans; [ | apply sle_push_frame]; [se]|]].
+    + apply push_frame_wf. qe; auto. eapply nsf_mono; [se | exact LC].
     + apply kwf_plain. intros m [<-|[<-|[]]]; reflexivity.
   - destruct (aget (actors s) a) as [x|] eqn:AX.
     + pose proof (w_actors _ H _ _ AX) as [A1 A2]. destruct (a_state x) eqn:SX; intros E; inversion E; subst.
       * split; [|split; [apply sle_upd_actor | apply kwf_nil]]. apply Q_upd_actor; auto. split; simpl; auto.
         apply qwf_app. split; auto. constructor; auto.
-      * split; [|split; [eapply sle_trans; [apply sle_emit | apply sle_push_frame]|]].
-        -- apply push_frame_wf. apply Q_emit; auto. eapply nsf_mono; [apply sle_emit | exact LC].
+      * split; [|split; [eapply sle_trans; [ | apply sle_push_frame]; [se]|]].
+        -- apply push_frame_wf. qe; auto. eapply nsf_mono; [se | exact LC].
         -- apply kwf_plain. intros m [<-|[<-|[<-|[]]]]; reflexivity.
       * split; auto. split; [apply sle_refl|]. constructor; [exact C|]. apply kwf_one_plain. reflexivity.
-    + intros E; inversion E; subst. split; [apply Q_emit; auto|]. split; [apply sle_emit|].
-      constructor; [|constructor]. unfold mwf; simpl. eapply nsf_mono; [apply sle_emit | exact C].
+    + intros E; inversion E; subst. split; [qe; auto|]. split; [se|].
+      constructor; [|constructor]. unfold mwf; simpl. eapply nsf_mono; [se | exact C].
   - destruct (aget (actors s) a) as [x|] eqn:AX.
     + destruct (ob (count_is_prep (a_strong x))); intros E; inversion E; subst.
-      * split; [|split; [eapply sle_trans; [apply sle_emit | apply sle_push_frame]|]].
-        -- apply push_frame_wf. apply Q_emit; auto. eapply nsf_mono; [apply sle_emit | exact LC].
+      * split; [|split; [eapply sle_trans; [ | apply sle_push_frame]; [se]|]].
+        -- apply push_frame_wf. qe; auto. eapply nsf_mono; [se | exact LC].
         -- apply kwf_plain. intros m [<-|[<-|[<-|[]]]]; reflexivity.
       * split; auto. split; [apply sle_refl|]. constructor; [exact C|]. apply kwf_one_plain. reflexivity.
-    + intros E; inversion E; subst. split; [apply Q_emit; auto|]. split; [apply sle_emit|].
-      constructor; [|constructor]. unfold mwf; simpl. eapply nsf_mono; [apply sle_emit | exact C].
+    + intros E; inversion E; subst. split; [qe; auto|]. split; [se|].
+      constructor; [|constructor]. unfold mwf; simpl. eapply nsf_mono; [se | exact C].
   - destruct (aget (actors s) p) as [x|] eqn:AX.
     + pose proof (w_actors _ H _ _ AX) as [A1 A2]. destruct (a_state x) eqn:SX.
       * intros E; inversion E; subst. split; [|split; [apply sle_upd_actor | apply kwf_nil]]. apply Q_upd_actor; auto. split; simpl; auto.
         apply qwf_app. split; auto. constructor; auto.
       * destruct (nth_error slab (N.to_nat key)) as [[child|nx]|]; intros E; inversion E; subst.
         -- split; [|split; [apply sle_upd_actor | apply kwf_plain; intros m [<-|[<-|[]]]; reflexivity]]. apply Q_upd_actor; auto. split; simpl; auto.
-        -- split; [apply Q_emit; auto|]. split; [apply sle_emit | apply kwf_one_plain; reflexivity].
-        -- split; [apply Q_emit; auto|]. split; [apply sle_emit | apply kwf_one_plain; reflexivity].
+        -- split; [qe; auto|]. split; [se | apply kwf_one_plain; reflexivity].
+        -- split; [qe; auto|]. split; [se | apply kwf_one_plain; reflexivity].
       * intros E; inversion E; subst. split; auto. split; [apply sle_refl | apply kwf_one_plain; reflexivity].
-    + intros E; inversion E; subst. split; [apply Q_emit; auto|]. split; [apply sle_emit | apply kwf_nil].
+    + intros E; inversion E; subst. split; [qe; auto|]. split; [se | apply kwf_nil].
   - intros E; inversion E; subst. split; auto. split; [apply sle_refl | apply kwf_plain; intros m [<-|[<-|[]]]; reflexivity].
   - intros E; inversion E; subst. split; auto. split; [apply sle_refl | apply kwf_plain; intros m [<-|[<-|[]]]; reflexivity].
 Qed.
@@ -848,7 +898,7 @@ Lemma drop_item_wf ci s l s' : QWF s -> cwf s ci -> drop_item ci s = (l, s') -> 
 Proof.
   intros H C. unfold drop_item. destruct ci as [u i kd caps q]. pose proof (cwf_caps _ _ C) as LC. simpl in LC.
   destruct kd; intros E; inversion E; subst.
-  - split; [apply Q_emit; auto|]. split; [apply sle_emit|]. apply kwf_drops. eapply nsf_mono; [apply sle_emit | exact LC].
+  - split; [qe; auto|]. split; [se|]. apply kwf_drops. eapply nsf_mono; [se | exact LC].
   - split; auto. split; [apply sle_refl|]. constructor; [unfold mwf; simpl; constructor|]. constructor; [exact C | constructor].
   - split; auto. split; [apply sle_refl|]. constructor; [unfold mwf; simpl; constructor|]. constructor; [exact C | constructor].
   - split; auto. split; [apply sle_refl | apply kwf_one_plain; reflexivity].
@@ -859,22 +909,22 @@ Qed.
 Lemma ret_invoke_wf r m s l s' : QWF s -> rwf s r -> ret_invoke r m s = (l, s') -> res_ok s l s'.
 Proof.
   intros H R. unfold ret_invoke. destruct r as [rid k]. unfold rwf in R. simpl in R. destruct k.
-  - intros E; inversion E; subst. split; [|split; [eapply sle_trans; [apply sle_emit | apply sle_push_frame]|]].
-    + apply push_frame_wf. apply Q_emit; auto. eapply nsf_mono; [apply sle_emit | exact R].
+  - intros E; inversion E; subst. split; [|split; [eapply sle_trans; [ | apply sle_push_frame]; [se]|]].
+    + apply push_frame_wf. qe; auto. eapply nsf_mono; [se | exact R].
     + apply kwf_plain. intros x [<-|[<-|[]]]; reflexivity.
   - inversion R as [|? ? T C]; subst. simpl in T. intros E; inversion E; subst.
-    split; [|split; [eapply sle_trans; [apply sle_emit | apply sle_submit] | apply kwf_nil]].
-    apply Q_submit. apply Q_emit; auto. apply cwf_as_call; auto. eapply nsf_mono; [apply sle_emit | exact C].
+    split; [|split; [eapply sle_trans; [ | apply sle_submit]; [se] | apply kwf_nil]].
+    apply Q_submit. qe; auto. apply cwf_as_call; auto; try (eapply nsf_mono; [se | exact C]).
   - inversion R as [|? ? T C]; subst. simpl in T. destruct m as [mm|]; intros E; inversion E; subst.
-    + split; [|split; [eapply sle_trans; [apply sle_emit | apply sle_submit] | apply kwf_nil]].
-      apply Q_submit. apply Q_emit; auto. apply cwf_as_call; auto. eapply nsf_mono; [apply sle_emit | exact C].
-    + split; [apply Q_emit; auto|]. split; [apply sle_emit|].
-      constructor; [unfold mwf; simpl; constructor|]. constructor; [|constructor]. unfold mwf; simpl. eapply nsf_mono; [apply sle_emit | exact C].
+    + split; [|split; [eapply sle_trans; [ | apply sle_submit]; [se] | apply kwf_nil]].
+      apply Q_submit. qe; auto. apply cwf_as_call; auto; try (eapply nsf_mono; [se | exact C]).
+    + split; [qe; auto|]. split; [se|].
+      constructor; [unfold mwf; simpl; constructor|]. constructor; [|constructor]. unfold mwf; simpl. eapply nsf_mono; [se | exact C].
   - destruct inner as [[p ci]|]; intros E; inversion E; subst.
     + inversion R as [|? ? T C]; subst. simpl in T.
-      split; [|split; [eapply sle_trans; [apply sle_emit | apply sle_submit] | apply kwf_nil]].
-      apply Q_submit. apply Q_emit; auto. apply cwf_as_call; auto. eapply nsf_mono; [apply sle_emit | exact C].
-    + split; [apply Q_emit; auto|]. split; [apply sle_emit | apply kwf_nil].
+      split; [|split; [eapply sle_trans; [ | apply sle_submit]; [se] | apply kwf_nil]].
+      apply Q_submit. qe; auto. apply cwf_as_call; auto; try (eapply nsf_mono; [se | exact C]).
+    + split; [qe; auto|]. split; [se | apply kwf_nil].
   - destruct m as [mm|]; intros E; inversion E; subst.
     + split; [|split; [eapply sle_trans; [apply sle_ref_clone | apply sle_push_main]|]].
       * apply Q_push_main. apply Q_ref_clone; auto. apply internal_wf; [apply Q_ref_clone; auto | exact I].
@@ -889,8 +939,8 @@ Proof.
   - pose proof (w_actors _ H _ _ AX) as AW.
     set (x1 := mkActor SZombie (oz (count_set_state (a_strong x) STATE_ZOMBIE)) (a_rc x) None (a_logid x) (a_freed x)).
     set (s0 := if a_freed x then emit s (EModel M_UAF a) else s).
-    assert (L0 : sle s s0) by (unfold s0; destruct (a_freed x); [apply sle_emit | apply sle_refl]).
-    assert (H0 : QWF s0) by (unfold s0; destruct (a_freed x); [apply Q_emit; auto | auto]).
+    assert (L0 : sle s s0) by (unfold s0; destruct (a_freed x); [se | apply sle_refl]).
+    assert (H0 : QWF s0) by (unfold s0; destruct (a_freed x); [qe; auto | auto]).
     assert (H1 : QWF (upd_actor s0 a x1)) by (apply Q_upd_actor; auto; split; exact I).
     assert (L1 : sle s (upd_actor s0 a x1)) by (eapply sle_trans; [exact L0 | apply sle_upd_actor]).
     destruct (state_drops a (a_state x) (upd_actor s0 a x1)) as [dl s1] eqn:SD.
@@ -899,15 +949,15 @@ Proof.
     + split; auto. split; auto. apply kwf_app. split; auto.
       constructor; [unfold mwf; simpl; constructor|]. constructor; [|constructor]. unfold mwf; simpl. eapply nsf_mono; eauto.
     + split; auto.
-  - intros E; inversion E; subst. split; [apply Q_emit; auto|]. split; [apply sle_emit | apply kwf_nil].
+  - intros E; inversion E; subst. split; [qe; auto|]. split; [se | apply kwf_nil].
 Qed.
 
 Lemma drop_own_wf a b s l s' : QWF s -> drop_own a b s = (l, s') -> res_ok s l s'.
 Proof.
   intros H. unfold drop_own.
   set (s0 := if b then emit s (EOwnDrop a) else s).
-  assert (L0 : sle s s0) by (unfold s0; destruct b; [apply sle_emit | apply sle_refl]).
-  assert (H0 : QWF s0) by (unfold s0; destruct b; [apply Q_emit; auto | auto]).
+  assert (L0 : sle s s0) by (unfold s0; destruct b; [se | apply sle_refl]).
+  assert (H0 : QWF s0) by (unfold s0; destruct b; [qe; auto | auto]).
   destruct (aget (actors s0) a) as [x|] eqn:AX.
   - pose proof (w_actors _ H0 _ _ AX) as AW. destruct (count_dec (a_strong x)) as [[v z]|].
     + assert (H1 : QWF (upd_actor s0 a (with_strong x v))) by (apply Q_upd_actor; auto).
@@ -916,29 +966,29 @@ Proof.
         -- apply Q_push_main. apply Q_ref_clone; auto. apply internal_wf; [apply Q_ref_clone; auto | exact I].
         -- eapply sle_trans; [exact L0|]. eapply sle_trans; [apply sle_upd_actor|]. eapply sle_trans; [apply sle_ref_clone | apply sle_push_main].
       * split; auto. split; [eapply sle_trans; [exact L0 | apply sle_upd_actor] | apply kwf_one_plain; reflexivity].
-    + intros E; inversion E; subst. split; [apply Q_emit; auto|]. split; [eapply sle_trans; [exact L0 | apply sle_emit] | apply kwf_one_plain; reflexivity].
-  - intros E; inversion E; subst. split; [apply Q_emit; auto|]. split; [eapply sle_trans; [exact L0 | apply sle_emit] | apply kwf_nil].
+    + intros E; inversion E; subst. split; [qe; auto|]. split; [eapply sle_trans; [exact L0 | se] | apply kwf_one_plain; reflexivity].
+  - intros E; inversion E; subst. split; [qe; auto|]. split; [eapply sle_trans; [exact L0 | se] | apply kwf_nil].
 Qed.
 
 Lemma drop_ref_wf a s l s' : QWF s -> drop_ref a s = (l, s') -> res_ok s l s'.
 Proof.
   intros H. unfold drop_ref. destruct (aget (actors s) a) as [x|] eqn:AX.
   - pose proof (w_actors _ H _ _ AX) as AW. destruct (a_freed x).
-    { intros E; inversion E; subst. split; [apply Q_emit; auto|]. split; [apply sle_emit | apply kwf_nil]. }
+    { intros E; inversion E; subst. split; [qe; auto|]. split; [se | apply kwf_nil]. }
     destruct (minrc_drop (a_rc x)) as [[v z]|].
     + destruct z.
       * set (x1 := mkActor SZombie (a_strong x) v None (a_logid x) true).
         set (s1 := emit (upd_actor s a x1) (EModel M_FREE_ACTOR a)).
-        assert (L1 : sle s s1) by (eapply sle_trans; [apply sle_upd_actor | apply sle_emit]).
-        assert (H1 : QWF s1) by (apply Q_emit, Q_upd_actor; auto; split; exact I).
+        assert (L1 : sle s s1) by (eapply sle_trans; [apply sle_upd_actor | se]).
+        assert (H1 : QWF s1) by (qe; apply Q_upd_actor; auto; split; exact I).
         destruct (state_drops a (a_state x) s1) as [dl s2] eqn:SD.
         destruct (state_drops_wf a x _ _ _ (awf_mono _ _ _ L1 AW) SD) as [-> KD].
         intros E; inversion E; subst. split; auto. split; auto. apply kwf_app. split; auto.
         destruct AW as [_ AN]. destruct (a_notify x) as [nt|]; [|constructor].
         constructor; [|constructor]. unfold mwf; simpl. eapply nsf_mono; eauto.
       * intros E; inversion E; subst. split; [apply Q_upd_actor; auto|]. split; [apply sle_upd_actor | apply kwf_nil].
-    + intros E; inversion E; subst. split; [apply Q_emit; auto|]. split; [apply sle_emit | apply kwf_nil].
-  - intros E; inversion E; subst. split; [apply Q_emit; auto|]. split; [apply sle_emit | apply kwf_nil].
+    + intros E; inversion E; subst. split; [qe; auto|]. split; [se | apply kwf_nil].
+  - intros E; inversion E; subst. split; [qe; auto|]. split; [se | apply kwf_nil].
 Qed.
 
 Lemma drop_val_wf v s l s' : QWF s -> vwf s v -> drop_val v s = (l, s') -> res_ok s l s'.
@@ -951,14 +1001,14 @@ Proof.
   - destruct (aget (fwds s) f) as [[rc k tg]|].
     + destruct (minrc_drop rc) as [[v' z]|].
       * destruct z; [destruct k; [|destruct tg]|]; intros E; inversion E; subst.
-        -- split; [apply Q_emit, Q_set_fwds; auto|]. split; [eapply sle_trans; [|apply sle_emit]; apply sle_same; reflexivity | apply kwf_nil].
+        -- split; [qe; apply Q_set_fwds; auto|]. split; [eapply sle_trans; [|se]; apply sle_same; reflexivity | apply kwf_nil].
         -- split; [apply Q_set_fwds; auto|]. split; [apply sle_same; reflexivity | apply kwf_one_plain; reflexivity].
         -- split; [apply Q_set_fwds; auto|]. split; [apply sle_same; reflexivity | apply kwf_nil].
         -- split; [apply Q_set_fwds; auto|]. split; [apply sle_same; reflexivity | apply kwf_nil].
-      * intros E; inversion E; subst. split; [apply Q_emit; auto|]. split; [apply sle_emit | apply kwf_nil].
-    + intros E; inversion E; subst. split; [apply Q_emit; auto|]. split; [apply sle_emit | apply kwf_nil].
-  - intros E; inversion E; subst. destruct (tok_script_wf script (emit s (ETokDrop t)) (Q_emit _ _ H)) as [A B].
-    split; auto. split; [eapply sle_trans; [apply sle_emit | exact B] | apply kwf_nil].
+      * intros E; inversion E; subst. split; [qe; auto|]. split; [se | apply kwf_nil].
+    + intros E; inversion E; subst. split; [qe; auto|]. split; [se | apply kwf_nil].
+  - intros E; inversion E; subst. destruct (tok_script_wf script (emit s (ETokDrop t)) (Q_emit _ (ETokDrop t) eq_refl H)) as [A B].
+    split; auto. split; [eapply sle_trans; [ | exact B]; [se] | apply kwf_nil].
 Qed.
 
 (* ------------------------------------------------------------------ *)
@@ -981,17 +1031,30 @@ Proof.
   eapply Forall_forall in F; [exact F|]. apply in_map. auto.
 Qed.
 
-Lemma fold_emit_opt_wf (f : N * actor -> option ev) l : forall s, QWF s ->
+Lemma fold_emit_opt_wf (f : N * actor -> option ev) l : (forall p e, f p = Some e -> is_tgt e = false) -> forall s, QWF s ->
   QWF (fold_left (fun x p => emit_opt x (f p)) l s) /\ sle s (fold_left (fun x p => emit_opt x (f p)) l s).
 Proof.
-  induction l as [|p l IH]; simpl; intros s H; [split; [auto | apply sle_refl]|].
-  assert (H1 : QWF (emit_opt s (f p))) by (unfold emit_opt; destruct (f p); [apply Q_emit; auto | auto]).
-  assert (L1 : sle s (emit_opt s (f p))) by (unfold emit_opt; destruct (f p); [apply sle_emit | apply sle_refl]).
+  intros NT. induction l as [|p l IH]; simpl; intros s H; [split; [auto | apply sle_refl]|].
+  assert (H1 : QWF (emit_opt s (f p))) by (unfold emit_opt; destruct (f p) eqn:F; [apply Q_emit; eauto | auto]).
+  assert (L1 : sle s (emit_opt s (f p))) by (unfold emit_opt; destruct (f p) eqn:F; [apply sle_emit; eauto | apply sle_refl]).
   destruct (IH _ H1) as [A B]. split; auto. eapply sle_trans; eauto.
 Qed.
 
-Lemma Q_set_tr_ext s l : QWF s -> QWF (set_tr s (l ++ tr s)).
-Proof. intros H. transport_tac. split; [simpl; lia | exists l; reflexivity]. Qed.
+Lemma class_flag_notgt all p e : class_flag all p = Some e -> is_tgt e = false.
+Proof.
+  unfold class_flag. destruct (a_freed (snd p)); [discriminate|].
+  destruct (a_state (snd p)) as [[|c hl]| |]; try discriminate.
+  - intros E; inversion E. reflexivity.
+  - destruct (existsb _ _); [|discriminate]. intros E; inversion E. reflexivity.
+Qed.
+
+Lemma leaks_notgt t : forallb (fun e => negb (is_tgt e)) (rev (leaks t)) = true.
+Proof.
+  apply forallb_forall. intros e H. apply in_rev in H. unfold leaks in H. apply in_map_iff in H as (p & <- & _). reflexivity.
+Qed.
+
+Lemma Q_set_tr_ext s l : forallb (fun e => negb (is_tgt e)) l = true -> QWF s -> QWF (set_tr s (l ++ tr s)).
+Proof. intros NT H. transport_tac. split; [simpl; lia | exists l; split; [reflexivity | apply fresh_notgt; auto]]. Qed.
 
 Lemma handle_wf m k0 s pre s' : WF (m :: k0) s -> handle m s = (pre, s') -> WF (pre ++ k0) s'.
 Proof.
@@ -1003,20 +1066,21 @@ Proof.
     apply FIN. unfold do_top in E. destruct o.
     + destruct (alive s); inversion E; subst; (split; [auto|split; [apply sle_refl | apply kwf_plain; simpl; intros m [<-|[<-|[]]] || intros m [<-|[]]; reflexivity]]).
     + destruct (alive s); [|eapply res_bad; eauto]. inversion E; subst.
-      split; [apply Q_emit; auto|]. split; [apply sle_emit | apply kwf_plain; intros m [<-|[<-|[<-|[]]]]; reflexivity].
+      split; [qe; auto|]. split; [se | apply kwf_plain; intros m [<-|[<-|[<-|[]]]]; reflexivity].
     + inversion E; subst. split; [apply push_frame_wf; auto; apply lwf_nil|]. split; [apply sle_push_frame|].
       apply kwf_plain. intros m [<-|[<-|[]]]; reflexivity.
     + destruct (alive s); inversion E; subst.
-      * split; [apply Q_emit; auto|]. split; [apply sle_emit | apply kwf_one_plain; reflexivity].
+      * split; [qe; auto|]. split; [se | apply kwf_one_plain; reflexivity].
       * split; auto. split; [apply sle_refl | apply kwf_nil].
     + inversion E; subst. split; auto. split; [apply sle_refl | apply kwf_one_plain; reflexivity].
     + destruct (alive s); [|eapply res_bad; eauto]. inversion E; subst.
-      split; [apply Q_set_haslogger, Q_set_logfilter, Q_emit; auto|].
-      split; [eapply sle_trans; [apply sle_emit | apply sle_same; reflexivity] | apply kwf_nil].
+      split; [apply Q_set_haslogger, Q_set_logfilter; qe; auto|].
+      split; [eapply sle_trans; [ | apply sle_same; reflexivity]; [se] | apply kwf_nil].
     + destruct (alive s); [|eapply res_bad; eauto]. inversion E; subst.
-      split; [apply Q_set_logfilter; destruct (haslogger _); [apply Q_emit, Q_emit | apply Q_emit]; auto|].
+      split; [apply Q_set_logfilter; destruct (haslogger _); [qe; qe | qe]; auto|].
       split; [|apply kwf_nil].
-      eapply sle_trans; [apply sle_emit|]. destruct (haslogger _); [eapply sle_trans; [apply sle_emit|]|]; apply sle_same; reflexivity.
+      eapply sle_trans; [apply (sle_emit s (ESetFilter lvls)); reflexivity|].
+      destruct (haslogger _); [eapply sle_trans; [apply (sle_emit _ (ELog 0 LOGLEVEL_INFO 0 9)); reflexivity|]|]; apply sle_same; reflexivity.
   - (* MActs *)
     apply FIN. destruct l as [|a l].
     + inversion E; subst. split; auto. split; [apply sle_refl | apply kwf_nil].
@@ -1029,43 +1093,43 @@ Proof.
       split; [apply Q_set_frames; auto|]. split; [apply sle_same; reflexivity|]. apply kwf_drops. assumption.
   - (* MEndBody *)
     apply FIN. destruct (frames s) as [|fr rest] eqn:F; inversion E; subst.
-    + split; [apply Q_emit, Q_emit; auto|]. split; [eapply sle_trans; apply sle_emit | apply kwf_nil].
+    + split; [qe; qe; auto|]. split; [eapply sle_trans; [apply (sle_emit s (EBad 60)); reflexivity | se] | apply kwf_nil].
     + pose proof (w_frames _ H) as W. rewrite F in W. inversion W as [|? ? W1 W2]; subst.
-      assert (L : sle s (set_frames (emit s (EEnd uid)) rest)) by (eapply sle_trans; [apply sle_emit | apply sle_same; reflexivity]).
+      assert (L : sle s (set_frames (emit s (EEnd uid)) rest)) by (eapply sle_trans; [ | apply sle_same; reflexivity]; [se]).
       split; [|split; [exact L|]].
-      * apply Q_set_frames. apply Q_emit; auto. eapply Forall_impl; [|exact W2]. intros x. apply nsf_mono, sle_emit.
+      * apply Q_set_frames. qe; auto. eapply Forall_impl; [|exact W2]. intros x. apply nsf_mono. se.
       * apply kwf_app. split; [apply kwf_drops; eapply nsf_mono; eauto|].
         apply kwf_plain. destruct f; simpl; try tauto; destruct (f_die fr); try destruct ready; simpl; intros m M;
           repeat (destruct M as [<-|M]; [reflexivity|]); contradiction.
   - (* MRunItem *) apply FIN. eapply run_item_wf; eauto.
   - apply FIN. eapply drop_item_wf; eauto.
-  - (* MDropInner *) apply FIN. inversion E; subst. split; [apply Q_emit; auto|]. split; [apply sle_emit|].
-    apply kwf_drops. eapply nsf_mono; [apply sle_emit | apply cwf_caps; exact MW].
+  - (* MDropInner *) apply FIN. inversion E; subst. split; [qe; auto|]. split; [se|].
+    apply kwf_drops. eapply nsf_mono; [se | apply cwf_caps; exact MW].
   - apply FIN. eapply drop_val_wf; eauto.
   - apply FIN. eapply drop_own_wf; eauto.
   - apply FIN. eapply drop_ref_wf; eauto.
   - apply FIN. eapply ret_invoke_wf; eauto.
-  - apply FIN. inversion E; subst. apply res_emit; auto.
-  - apply FIN. inversion E; subst. apply res_emit; auto.
-  - apply FIN. inversion E; subst. apply res_emit; auto.
-  - apply FIN. inversion E; subst. apply res_emit; auto.
+  - apply FIN. inversion E; subst. re.
+  - apply FIN. inversion E; subst. re.
+  - apply FIN. inversion E; subst. re.
+  - apply FIN. inversion E; subst. re.
   - apply FIN. eapply terminate_wf; eauto.
   - (* MLogClose *) apply FIN. destruct (aget (actors s) a); inversion E; subst.
     + split; [apply Q_log_rec; auto|]. split; [apply sle_log_rec | apply kwf_nil].
     + split; auto. split; [apply sle_refl | apply kwf_nil].
   - (* MToReady *) apply FIN. destruct (aget (actors s) a) as [x|] eqn:AX.
     + pose proof (w_actors _ H _ _ AX) as [A1 A2]. destruct (a_state x) eqn:SX; inversion E; subst.
-      * split; [|split; [eapply sle_trans; [apply sle_upd_actor | apply sle_emit]|]].
-        -- apply Q_emit, Q_upd_actor; auto. split; simpl; auto.
-        -- apply kwf_map_runitem. eapply qwf_mono; [|exact A1]. eapply sle_trans; [apply sle_upd_actor | apply sle_emit].
-      * apply res_emit; auto.
-      * apply res_emit; auto.
-    + inversion E; subst. apply res_emit; auto.
+      * split; [|split; [eapply sle_trans; [apply sle_upd_actor | se]|]].
+        -- qe; apply Q_upd_actor; auto. split; simpl; auto.
+        -- apply kwf_map_runitem. eapply qwf_mono; [|exact A1]. eapply sle_trans; [apply sle_upd_actor | se].
+      * re.
+      * re.
+    + inversion E; subst. re.
   - (* MNew *) apply FIN. inversion E; subst.
-    assert (L : sle s (fresh_stakker (set_mainq (emit s (ENew t)) []) t)) by (eapply sle_trans; [apply sle_emit | apply sle_same; reflexivity]).
+    assert (L : sle s (fresh_stakker (set_mainq (emit s (ENew t)) []) t)) by (eapply sle_trans; [ | apply sle_same; reflexivity]; [se]).
     split; [|split; [exact L|]].
     + unfold fresh_stakker. apply Q_set_shut, Q_set_haslogger, Q_set_logfilter, Q_set_logseq, Q_set_recreate, Q_set_tvars, Q_set_start, Q_set_now, Q_set_alive.
-      apply Q_set_mainq; [apply Q_emit; auto | constructor].
+      apply Q_set_mainq; [qe; auto | constructor].
     + destruct (dk s); [|constructor]. apply kwf_map_dropitem. eapply qwf_mono; [exact L | apply H].
   - (* MRunIdle *) apply FIN. destruct idle; [destruct (idleq s) as [|c r] eqn:IQ|]; inversion E; subst.
     + split; auto. split; [apply sle_refl | apply kwf_nil].
@@ -1075,9 +1139,9 @@ Proof.
   - (* MRunMain *) apply FIN. destruct (t >? now s).
     + inversion E; subst. clear E.
       set (s1 := if ambiguous (filter (ti_due t) (timers s)) then emit (set_now (set_mainq s []) t) (EModel M_AMBIG 0) else set_now (set_mainq s []) t).
-      assert (L1 : sle s s1) by (unfold s1; destruct (ambiguous _); [eapply sle_trans; [|apply sle_emit]|]; apply sle_same; reflexivity).
+      assert (L1 : sle s s1) by (unfold s1; destruct (ambiguous _); [eapply sle_trans; [|se]|]; apply sle_same; reflexivity).
       assert (H1 : QWF s1).
-      { unfold s1. destruct (ambiguous _); [apply Q_emit|]; apply Q_set_now, Q_set_mainq; auto; constructor. }
+      { unfold s1. destruct (ambiguous _); [qe|]; apply Q_set_now, Q_set_mainq; auto; constructor. }
       assert (TS : timers s1 = timers s) by (unfold s1; destruct (ambiguous _); reflexivity).
       split; [|split; [eapply sle_trans; [exact L1 | apply sle_same; reflexivity]|]].
       * apply Q_set_timers; auto. eapply qwf_timers_sub; [|apply H1]. intros y Hy. apply filter_In in Hy. rewrite TS. tauto.
@@ -1090,8 +1154,8 @@ Proof.
   - (* MLoop *) apply FIN. destruct (mainq s) as [|c l] eqn:MQ.
     + destruct (lazyq s) as [|c l] eqn:LQ; inversion E; subst.
       * split; [|split; [|apply kwf_nil]].
-        -- apply Q_emit. destruct (t >? recreate s); [apply Q_set_recreate|]; auto.
-        -- eapply sle_trans; [|apply sle_emit]. destruct (t >? recreate s); [apply sle_same; reflexivity | apply sle_refl].
+        -- qe. destruct (t >? recreate s); [apply Q_set_recreate|]; auto.
+        -- eapply sle_trans; [|se]. destruct (t >? recreate s); [apply sle_same; reflexivity | apply sle_refl].
       * split; [apply Q_set_lazyq; auto; constructor|]. split; [apply sle_same; reflexivity|].
         change (MRunItem c :: map MRunItem l ++ [MLoop t]) with (map MRunItem (c :: l) ++ [MLoop t]).
         apply kwf_app. split; [apply kwf_map_runitem; rewrite <- LQ; apply H | apply kwf_one_plain; reflexivity].
@@ -1101,7 +1165,7 @@ Proof.
   - (* MDrain *) apply FIN. destruct (i >=? TEARDOWN_ROUNDS).
     + inversion E; subst. destruct (is_nil (mainq s)).
       * split; auto. split; [apply sle_refl | apply kwf_one_plain; reflexivity].
-      * split; [apply Q_emit; auto|]. split; [apply sle_emit | apply kwf_one_plain; reflexivity].
+      * split; [qe; auto|]. split; [se | apply kwf_one_plain; reflexivity].
     + destruct (mainq s) as [|c l] eqn:MQ; inversion E; subst.
       * split; auto. split; [apply sle_refl | apply kwf_one_plain; reflexivity].
       * split; [apply Q_set_mainq; auto; constructor|]. split; [apply sle_same; reflexivity|].
@@ -1109,29 +1173,29 @@ Proof.
         apply kwf_app. split; [apply kwf_map_dropitem; rewrite <- MQ; apply H | apply kwf_one_plain; reflexivity].
   - (* MDropFields *) apply FIN. inversion E; subst. clear E.
     set (s0 := if ambiguous (timers s) then emit s (EModel M_AMBIG 1) else s).
-    assert (L0 : sle s s0) by (unfold s0; destruct (ambiguous _); [apply sle_emit | apply sle_refl]).
-    assert (H0 : QWF s0) by (unfold s0; destruct (ambiguous _); [apply Q_emit; auto | auto]).
+    assert (L0 : sle s s0) by (unfold s0; destruct (ambiguous _); [se | apply sle_refl]).
+    assert (H0 : QWF s0) by (unfold s0; destruct (ambiguous _); [qe; auto | auto]).
     assert (L1 : sle s0 (emit (set_tvars (set_timers (set_idleq (set_lazyq s0 []) []) []) []) EDropFields)).
-    { eapply sle_trans; [|apply sle_emit]. apply sle_same; reflexivity. }
+    { eapply sle_trans; [|se]. apply sle_same; reflexivity. }
     split; [|split; [eapply sle_trans; eauto|]].
-    + apply Q_emit, Q_set_tvars, Q_set_timers; [|constructor]. apply Q_set_idleq; [|constructor]. apply Q_set_lazyq; auto. constructor.
+    + qe; apply Q_set_tvars, Q_set_timers; [|constructor]. apply Q_set_idleq; [|constructor]. apply Q_set_lazyq; auto. constructor.
     + apply kwf_app. split; [|apply kwf_one_plain; reflexivity]. apply kwf_map_dropitem.
       eapply qwf_mono; [exact L1|]. apply qwf_app. split; [apply H0|]. apply qwf_app. split; [apply H0|].
       eapply qwf_timers_sub; [|apply H0]. intros y Hy. apply ti_sort_in in Hy. exact Hy.
   - (* MDropEnd *) apply FIN. inversion E; subst. split; [|split; [|apply kwf_nil]].
-    + apply Q_emit, Q_set_alive. destruct (is_nil (mainq s)); [auto | apply Q_emit; auto].
-    + eapply sle_trans; [|apply sle_emit]. destruct (is_nil (mainq s)); [apply sle_same; reflexivity|].
-      eapply sle_trans; [apply sle_emit | apply sle_same; reflexivity].
+    + qe; apply Q_set_alive. destruct (is_nil (mainq s)); [auto | qe; auto].
+    + eapply sle_trans; [|se]. destruct (is_nil (mainq s)); [apply sle_same; reflexivity|].
+      eapply sle_trans; [ | apply sle_same; reflexivity]; [se].
   - (* MDropAll *) apply FIN. destruct (amin (env s)) as [[h v]|] eqn:AM; inversion E; subst.
     + split; [apply Q_set_env; auto; apply lwf_adel, H|]. split; [apply sle_same; reflexivity|].
       constructor; [|apply kwf_one_plain; reflexivity]. unfold mwf; simpl. eapply lwf_amin; [apply H | eauto].
     + split; auto. split; [apply sle_refl | apply kwf_nil].
-  - (* MEpilogue *) apply FIN. inversion E; subst. split; [apply Q_emit; auto|]. split; [apply sle_emit|].
+  - (* MEpilogue *) apply FIN. inversion E; subst. split; [qe; auto|]. split; [se|].
     apply kwf_plain. simpl. intros m M. repeat (destruct M as [<-|M]; [reflexivity|]). contradiction.
   - (* MLeaks *) apply FIN. inversion E; subst.
-    destruct (fold_emit_opt_wf (class_flag (actors s)) (actors s) s H) as [A B]. fold (class_flags s) in A, B.
-    split; [apply Q_set_tr_ext; auto|]. split; [|apply kwf_nil].
-    eapply sle_trans; [exact B|]. split; [simpl; lia | eexists; reflexivity].
+    destruct (fold_emit_opt_wf (class_flag (actors s)) (actors s) (class_flag_notgt (actors s)) s H) as [A B]. fold (class_flags s) in A, B.
+    split; [apply Q_set_tr_ext; [apply leaks_notgt | auto]|]. split; [|apply kwf_nil].
+    eapply sle_trans; [exact B|]. split; [simpl; lia|]. eexists. split; [reflexivity | apply fresh_notgt, leaks_notgt].
 Qed.
 
 Theorem step_WF k s k' s' : WF k s -> step k s = Some (k', s') -> WF k' s'.
